@@ -67,6 +67,7 @@ var c14Exceptions = []errException{
 
 func runC14(c *Ctx) {
 	c14ChunkEOF(c)
+	c14CopyLen(c)
 	p := c.P
 	io := NewIOErrs(p)
 	inScope := rootImportClosure(p)
@@ -426,4 +427,61 @@ func c14ChunkEOF(c *Ctx) {
 	sort.Strings(bad)
 	c.Check(rule, "(*FilePages).ReadPage vets the io.EOF of its stream", fn.Pos(), len(bad) == 0 && n > 0, "(*FilePages).ReadPage returns the error of "+strings.Join(bad, ", ")+" as it is: when the source ends before the end of the column chunk its io.EOF is taken for the end of the pages and the remaining rows go missing without an error")
 	c.Stats[rule+".stream_errors_returned"] = n
+}
+
+// c14CopyLen: io.Copy and ReadFrom end quietly on the io.EOF of their source.
+// When the source is a section of a known length (io.NewSectionReader), the
+// only way to notice that it ended early is the byte count: the count returned
+// by a copy from a section reader is used (compared with the length), never
+// discarded.
+func c14CopyLen(c *Ctx) {
+	rule := "C14.copylen"
+	p := c.P
+	n := 0
+	for _, fn := range p.ModuleSSAFuncs() {
+		if fn.Origin() != nil || fn.Blocks == nil || !rootImportClosure(p)[fnPkgPath(fn)] {
+			continue
+		}
+		k := 0
+		allCalls(fn, false, func(_ *ssa.Function, ci ssa.CallInstruction) {
+			call, ok := ci.(*ssa.Call)
+			if !ok {
+				return
+			}
+			name := calleeName(call)
+			var src ssa.Value
+			switch {
+			case name == "io.Copy" && len(call.Call.Args) == 2:
+				src = call.Call.Args[1]
+			case strings.HasSuffix(name, ").ReadFrom") && len(call.Call.Args) >= 1:
+				src = call.Call.Args[len(call.Call.Args)-1]
+			default:
+				return
+			}
+			section := false
+			for _, o := range Origins(src, OriginOpts{}) {
+				if o.Kind == OrgCall && calleeName(o.Call) == "io.NewSectionReader" {
+					section = true
+				}
+			}
+			if !section {
+				return
+			}
+			n++
+			used := false
+			for _, r := range *call.Referrers() {
+				if ex, ok := r.(*ssa.Extract); ok && ex.Index == 0 && ex.Referrers() != nil && len(*ex.Referrers()) > 0 {
+					used = true
+				}
+			}
+			key := FuncKey(fn) + ": byte count of a copy from a section is checked"
+			if k > 0 {
+				key += " #" + itoa(k)
+			}
+			k++
+			c.Check(rule, key, call.Pos(), used, FuncKey(fn)+" copies a section of known length with "+name+" and discards the number of bytes copied: a source that ends early (short read with io.EOF) yields a truncated copy and no error")
+		})
+	}
+	c.Stats[rule+".section_copies"] = n
+	c.Min(rule, 1)
 }
